@@ -223,10 +223,12 @@ def gen_program(rng):
     (line, col, fragment, kind, receiver_expr or None)."""
     lines = []
     classes = []
-    ncls = rng.randint(1, 3)
+    ncls = rng.randint(1, 6)
     for ci in range(ncls):
         cname = 'K%d' % ci
-        bases = [c for c in classes if rng.random() < 0.45][:2]
+        # up to two bases in either order: chains, diamonds and shapes such as
+        # Left(Base), Right(Base, Plugin), Leaf(Left, Right) all occur
+        bases = rng.sample(classes, min(len(classes), rng.choice([0, 1, 1, 2, 2])))
         lines.append('class %s(%s):' % (cname, ', '.join(bases)) if bases else 'class %s:' % cname)
         for a in rng.sample(IDENTS, rng.randint(1, 4)):
             lines.append('    %s = %d' % (a, rng.randint(0, 9)))
